@@ -907,11 +907,18 @@ def sanitize_html(html_source, encoding, _type):
 
 # Match XML entity declarations.
 # Example: <!ENTITY copyright "(C)">
-RE_ENTITY_PATTERN = re.compile(rb"^\s*<!ENTITY([^>]*?)>", re.MULTILINE)
+# (A declaration need not start a line: inside the internal subset it may
+# directly follow "[", the ">" of the previous declaration, a parameter-entity
+# reference or white space.)
+RE_ENTITY_PATTERN = re.compile(
+    rb"(?:^|(?<=[>\[\s;]))\s*<!ENTITY([^>]*?)>", re.MULTILINE
+)
 
 # Match XML DOCTYPE declarations.
 # Example: <!DOCTYPE feed [ ]>
-RE_DOCTYPE_PATTERN = re.compile(rb"^\s*<!DOCTYPE([^>]*?)>", re.MULTILINE)
+RE_DOCTYPE_PATTERN = re.compile(
+    rb"(?:^|(?<=[>\s]))\s*<!DOCTYPE([^>]*?)>", re.MULTILINE
+)
 
 # Match safe entity declarations.
 # This will allow hexadecimal character references through,
